@@ -292,9 +292,23 @@ def gen_stft(run):
                         continue
                       i += 1
                       yield (size, hop, n, func, trans, ba, wk, ola, ola_wnd, ola_norm, STYLES[i % 5])
+  # the analysis window handed over as a tuple / Stream / generator object, and a synthesis hop /
+  # size that differs from the analysis one (ola_hop, ola_size: the prefixed option wins)
+  for size in (2, 3, 4):
+    for hop in [None] + list(range(1, size + 1)):
+      for n in (0, 3, 7):
+        for wk in ("tuple", "stream", "generator"):
+          for ola in ("list", "none", "fake"):
+            for style in STYLES:
+              yield (size, hop, n, "identity", False, False, wk, ola, "absent", "absent", style)
+        for style in STYLES:
+          for wk in ("none", "list"):
+            yield (size, hop, n, "scale", False, True, wk, "fake", "absent", "absent", style, "ola-hop-size")
 
 
 def run_stft(case):
+  synth = len(case) > 11 and case[11] == "ola-hop-size"
+  case = case[:11]
   size, hop, n, fname, trans, ba, wk, olak, ola_wnd, ola_norm, style = case
   x = syms("x", n)
   log = []
@@ -341,6 +355,8 @@ def run_stft(case):
   extra_ola = {}
   if olak == "fake":
     extra_ola = {"alpha": 3, "lag": 1, "_x": 2, "ola": 5, "offset": 0}
+    if synth:
+      extra_ola.update({"hop": size + 3, "size": size + 1})
     for k, v in extra_ola.items():
       kws["ola_" + k] = v
   nt = True
@@ -443,12 +459,12 @@ def run_stft(case):
   if ola_wnd == "None": ola_kw["wnd"] = None
   elif ola_wnd == "list": ola_kw["wnd"] = list(owvals)
   if ola_norm != "absent": ola_kw["normalize"] = ola_norm
-  ola_kw.update(extra_ola)
   if style == "partial-reassign":
     if hop is None:
       ola_kw["hop"] = size
     ola_kw.setdefault("wnd", None)
     ola_kw.setdefault("normalize", True)
+  ola_kw.update(extra_ola)          # an ola_-prefixed option wins over the blocking size / hop
   if olak == "fake":
     if fake_calls != [ola_kw]:
       return bad("stft:ola-params", "only size, hop and ola_-prefixed options (prefix stripped) may reach the overlap-add",
